@@ -4,9 +4,11 @@ import (
 	"context"
 	"errors"
 	"fmt"
+	"os"
 	"sort"
 	"strings"
 	"sync"
+	"time"
 
 	formula "github.com/aundis/formula"
 
@@ -165,12 +167,20 @@ type TopLevel struct {
 	HasBoth bool // non-nil value together with a non-nil error
 }
 
+const evalHangAfter = 120 * time.Second
+
 func ResolveTop(r *formula.Runner, e formula.Expression) TopLevel {
 	installHooks()
 	ob := &rootObs{root: e}
 	rootWatch.Store(r, ob)
 	defer rootWatch.Delete(r)
+	// an evaluation that never returns ends the process with a recognisable exit status
+	wd := time.AfterFunc(evalHangAfter, func() {
+		fmt.Fprintf(os.Stderr, "VERIF-HANG: an evaluation did not return within %v\n", evalHangAfter)
+		os.Exit(5)
+	})
 	v, err := safeResolve(r, e)
+	wd.Stop()
 	t := TopLevel{Val: v, Err: err, Root: ob.res, RootOK: ob.seen && ob.err == nil}
 	if pe, ok := err.(panicError); ok {
 		t.Panic = pe.v
